@@ -6,7 +6,7 @@ from hexlib import HexaryTrie, rlp, keccak
 from trie.exceptions import BadTrieProof
 
 ID = "C03"
-LEAN_IMPORTS = ["PyTrie.Props.C03", "PyTrie.Props.Histories", "PyTrie.Props.RawLevel", "PyTrie.Props.NonVacuity"]
+LEAN_IMPORTS = ["PyTrie.Props.C03", "PyTrie.Props.Histories", "PyTrie.Props.RawLevel", "PyTrie.Props.NonVacuity", "PyTrie.Props.NonVacuity2"]
 THEOREMS = [
     "PyTrie.Props.C03.proof_on_path",
     "PyTrie.Props.C03.proof_head",
@@ -28,6 +28,7 @@ THEOREMS = [
     "PyTrie.Props.NonVacuity.c03_complete",
     "PyTrie.Props.NonVacuity.c03_sound",
     "PyTrie.Props.NonVacuity.c03_withheld",
+    "PyTrie.Props.NonVacuity2.get_proof_witness",
 ]
 RULE = ("tries built by generated histories (crafted and random prefix-sharing universes, values on both sides of the "
         "32-byte embedding boundary, values on branches, keys ending inside extensions and below embedded nodes); for every "
